@@ -19,6 +19,7 @@ namespace vf { namespace alloc {
 enum Fill { F00 = 0, FFF, FAA, F55, FRND, FNATIVE };
 struct State { int mode = FNATIVE; uint64_t rng = 88172645463325252ULL; unsigned long long allocs = 0, bytes = 0; bool active = false; };
 inline State &st() { static State s; return s; }
+inline size_t &cap() { static size_t c = (size_t)2 << 30; return c; }      // largest single request served (valid workloads of the harnesses stay far below)
 
 inline const char *fill_name(int m) { static const char *n[] = {"00", "ff", "aa", "55", "rnd", "native"}; return n[m]; }
 inline int fill_from_name(const std::string &s) { for (int m = 0; m <= FNATIVE; ++m) if (s == fill_name(m)) return m; return -1; }
@@ -65,6 +66,7 @@ inline unsigned char fill_byte() { switch (st().mode) { case FFF: return 0xFF; c
 #ifndef VF_NATIVE_NEW
 static inline void *vf_new_impl(size_t n, size_t align, bool nothrow) {
     void *p = nullptr; if (!n) n = 1;
+    if (n > vf::alloc::cap()) { if (nothrow) return nullptr; throw std::bad_alloc(); }     // a garbage size must fail cleanly, not commit the machine's memory through the fill
     if (align > alignof(std::max_align_t)) { if (posix_memalign(&p, align, n)) p = nullptr; } else p = malloc(n);
     if (!p) { if (nothrow) return nullptr; throw std::bad_alloc(); }
     auto &s = vf::alloc::st(); ++s.allocs; s.bytes += n;
